@@ -139,7 +139,7 @@ fn record(phase: &str, idx: u64, sub: u64, spec: &RunSpec, exp: &model::Expect, 
         digest: obs.digest(),
         violations,
         spec: if keep_spec { Some(spec.clone()) } else { None },
-        expected_failure: exp.failure.is_some() || obs.injected.iter().any(|i| i.hard()),
+        expected_failure: exp.failure.is_some() || (obs.injected.iter().any(|i| i.hard()) && obs.exit != Some(0)),
         calls: obs.calls.len(),
     }
 }
